@@ -134,3 +134,17 @@ func (s *Service) VerifDoCompaction(partID uint64) {
 type VerifTableStats struct {
 	Allocated, Inuse, Garbage, Length, NumTables int
 }
+
+// VerifResetDMaps wipes every DMap of this member locally (primary and backup
+// fragments), so that no earlier command can make a later one wait legitimately.
+func (s *Service) VerifResetDMaps() {
+	s.RLock()
+	var names []string
+	for name := range s.dmaps {
+		names = append(names, name)
+	}
+	s.RUnlock()
+	for _, name := range names {
+		_ = s.destroyLocalDMap(name)
+	}
+}
